@@ -90,10 +90,32 @@ def strip_coq_comments(src: str) -> str:
     return "".join(out)
 
 
-def scan_forbidden() -> list[str]:
-    """Scan every .v under coq/ for constructs that would declare an axiom or disable a check."""
+def coq_deps(vfile: Path) -> list[Path]:
+    """Transitive closure of the development's own files a .v file requires (lexical, like coqdep)."""
+    byname = {}
+    for d in ("theories", "exec", "props"):
+        for f in (COQ / d).glob("*.v"):
+            byname[f.stem] = f
+    seen: dict[Path, None] = {}
+    todo = [vfile]
+    while todo:
+        f = todo.pop()
+        if f in seen or not f.exists():
+            continue
+        seen[f] = None
+        src = strip_coq_comments(f.read_text())
+        for m in re.finditer(r"Require\s+(?:Import\s+|Export\s+)?([^.]*(?:\.[A-Za-z_][^.\s]*)*)\s*\.(?=\s)", src):
+            for nm in m.group(1).split():
+                base = nm.split(".")[-1]
+                if base in byname:
+                    todo.append(byname[base])
+    return list(seen)
+
+
+def scan_forbidden(files: list[Path] | None = None) -> list[str]:
+    """Scan .v files (default: every file under coq/) for constructs that would declare an axiom or disable a check."""
     bad = []
-    for f in sorted(COQ.rglob("*.v")):
+    for f in sorted(files if files is not None else COQ.rglob("*.v")):
         if ".work" in f.parts:
             continue
         src = strip_coq_comments(f.read_text())
@@ -123,8 +145,8 @@ def coq_project_text() -> str:
     return "\n".join(lines) + "\n"
 
 
-def coq_build(verbose: bool = False) -> tuple[bool, str]:
-    """Full .vo build of the development (incremental; a no-op when up to date)."""
+def coq_build(verbose: bool = False, targets: list[str] | None = None) -> tuple[bool, str]:
+    """Full .vo build of the development, or of `targets` and what they depend on (incremental; a no-op when up to date)."""
     COQ.mkdir(exist_ok=True)
     WORK.mkdir(exist_ok=True)
     with open(WORK / "build.lock", "w") as lk:
@@ -136,7 +158,7 @@ def coq_build(verbose: bool = False) -> tuple[bool, str]:
             r = subprocess.run(["coq_makefile", "-f", "_CoqProject", "-o", "Makefile"], cwd=COQ, capture_output=True, text=True)
             if r.returncode != 0:
                 return False, r.stdout + r.stderr
-        r = subprocess.run(["timeout", "1500", "make", "-j16", "-k"], cwd=COQ, capture_output=True, text=True)
+        r = subprocess.run(["timeout", "1500", "make", "-j16", "-k", *(targets or [])], cwd=COQ, capture_output=True, text=True)
         log = r.stdout + r.stderr
         if verbose:
             print(log[-4000:])
@@ -204,15 +226,18 @@ class Check:
         self._known = json.loads((ROOT / "known_findings.json").read_text()) if (ROOT / "known_findings.json").exists() else {"findings": []}
 
     # ---- proof side -------------------------------------------------------------
-    def coq_props(self, props_file: str | None = None, extra_allowed: set[str] = frozenset()) -> dict:
-        """Build the development, compile props/CXX.v and check every Print Assumptions.
-        Records obligations/discharged into the coverage and returns the details."""
-        bad = scan_forbidden()
-        ok, log = coq_build()
+    def coq_props(self, props_file: str | None = None, extra_allowed: set[str] = frozenset(), extra_targets: list[str] = ()) -> dict:
+        """Build props/CXX.v and everything it (and `extra_targets`, e.g. "exec/RunC01.vo") depends on, re-compile
+        props/CXX.v to capture every Print Assumptions.  Records obligations/discharged into the coverage."""
         props = COQ / "props" / (props_file or f"{self.pid}.v")
+        deps = coq_deps(props)
+        for t in extra_targets:
+            deps += coq_deps(COQ / (t[:-1] if t.endswith(".vo") else t))
+        bad = scan_forbidden(sorted(set(deps)))
+        ok, log = coq_build(targets=[f"props/{props.stem}.vo", *extra_targets])
         vsrc = props.read_text()
         thms = re.findall(r"^\s*(?:Theorem|Lemma|Corollary)\s+([A-Za-z0-9_']+)", strip_coq_comments(vsrc), re.M)
-        cmd = ["timeout", "600", "coqc", *COQ_FLAGS, "-o", str(self.workdir / "props.vo"), str(props)]
+        cmd = ["timeout", "600", "coqc", *COQ_FLAGS, "-o", str(self.workdir / (props.stem + ".vo")), str(props)]
         details = {"theorems": thms, "build_ok": ok, "forbidden": bad, "per_theorem": []}
         failed: list[str] = []
         if not ok:
